@@ -226,6 +226,11 @@ def run(chk: core.Check) -> int:
     add('HIP_RA_X', 'half-fail', MIXES['half-fail'], mc.HIP_OUTPUTS[:2], mc.HIP_BASE, 160 if quick else 512, 16)
     gbase = geo.params_to_text(geo.base_params(2, 1, 1, L=10, n=2))
     add('GEOPHIRES', 'geophires-mix', GEO_MIX, GEO_OUTS, gbase, 10 if quick else 60, 4)
+    # sampled parameters whose names are prefixes of other parameters the base file sets to non-default values
+    # (Reservoir Volume / Reservoir Volume Option, Inflation Rate / Inflation Rate During Construction): the row must replay on base + samples
+    pbase = geo.params_to_text({**geo.base_params(3, 1, 1, L=10, n=2), 'Inflation Rate During Construction': 0.08})
+    add('GEOPHIRES', 'prefix-named-inputs', [('Reservoir Volume', 'uniform', 5e8, 2e9), ('Inflation Rate', 'uniform', 0.01, 0.04), ('Utilization Factor', 'uniform', 0.8, 0.95)],
+        GEO_OUTS, pbase, 6 if quick else 30, 3)
     # an output that the report of this configuration does not contain (a heat-only figure requested for an electricity case): F12
     add('GEOPHIRES', 'absent-output', GEO_MIX[:2], ['Average Net Electricity Production', 'Direct-Use heat breakeven price (LCOH)', 'Total capital costs'], gbase, 6, 2)
     hbase = geo.params_to_text(geo.base_params(1, 2, 9, L=10, n=2))
